@@ -115,4 +115,85 @@ theorem vkBo_repl {ss ss' : List Stmt} {last : Option Last} (h : ReplList N ss s
     exact ⟨.genB fun _ hq => SoundB.some (h.sound hq h1.1) (HeapU.reflL hq l D h1.2),
       NoRefB.some.mpr ⟨h.noRef h1.1, h1.2⟩⟩
 
+/-! ## hooks exact at `N` are `HeapU` hooks (`HooksLeAt → HooksU`; added by b-sim, round 5) -/
+
+theorem soundT_at {Q : QRel} {D : List DName} {a a' : Expr} (h : LeTAt N a a')
+    (hr : SoundT Q (cxU N) D a' a') : SoundT Q (cxU N) D a a' := by
+  intro N' call ρ k env env' σ σ' β hp hs he
+  have hN : N' = N := hp.cf
+  subst hN
+  rcases h call ρ k env σ with h1 | h1
+  · rw [h1]; exact RRel.timeout_left rfl _
+  · rw [← h1]; exact hr _ call ρ k env env' σ σ' β hp hs he
+
+theorem soundS_at {Q : QRel} {D : List DName} {a a' : Stmt} (h : LeSAt N a a')
+    (hr : SoundS Q (cxU N) D a' a') : SoundS Q (cxU N) D a a' := by
+  intro N' call ρ k env env' σ σ' β hp hs he
+  have hN : N' = N := hp.cf
+  subst hN
+  rcases h call ρ k env σ with h1 | h1
+  · rw [h1]; exact RRel.timeout_left rfl _
+  · rw [← h1]; exact hr _ call ρ k env env' σ σ' β hp hs he
+
+theorem soundL_at {Q : QRel} {D : List DName} {a a' : Last} (h : LeLAt N a a')
+    (hr : SoundL Q (cxU N) D a' a') : SoundL Q (cxU N) D a a' := by
+  intro N' call ρ k env env' σ σ' β hp hs he
+  have hN : N' = N := hp.cf
+  subst hN
+  rcases h call ρ k env σ with h1 | h1
+  · rw [h1]; exact RRel.timeout_left rfl _
+  · rw [← h1]; exact hr _ call ρ k env env' σ σ' β hp hs he
+
+theorem soundB_at {Q : QRel} {D D' : List DName} {a a' : Block} (h : LeBAt N a a')
+    (hr : SoundB Q (cxU N) D a' a' D') : SoundB Q (cxU N) D a a' D' :=
+  ⟨hr.1, by
+    intro N' call ρ k env env' σ σ' β hp hs he
+    have hN : N' = N := hp.cf
+    subst hN
+    rcases h call ρ k env σ with h1 | h1
+    · rw [h1]; exact RRel.timeout_left rfl _
+    · rw [← h1]; exact hr.2 _ call ρ k env env' σ σ' β hp hs he⟩
+
+theorem vkT_at {a a' : Expr} (h : LeTAt N a a') (hn : ∀ D, NoRefT D a → NoRefT D a')
+    (hv : ∀ x, a = .var x → a' = .var x) : (VkT (cxU N)) a a' :=
+  ⟨fun D _ hd => ⟨.genT fun _ hq => soundT_at h (HeapU.reflT hq a' D (hn D hd)), hn D hd⟩, hv⟩
+theorem vkS_at {a a' : Stmt} (h : LeSAt N a a') (hn : ∀ D, NoRefS D a → NoRefS D a') : (VkS (cxU N)) a a' :=
+  fun D _ hd => ⟨.genS fun _ hq => soundS_at h (HeapU.reflS hq a' D (hn D hd)), hn D hd⟩
+theorem vkL_at {a a' : Last} (h : LeLAt N a a') (hn : ∀ D, NoRefL D a → NoRefL D a') : (VkL (cxU N)) a a' :=
+  fun D _ hd => ⟨.genL fun _ hq => soundL_at h (HeapU.reflL hq a' D (hn D hd)), hn D hd⟩
+theorem vkBo_at {a a' : Block} (h : LeBAt N a a') (hn : ∀ D, NoRefB D a → NoRefB D a') : (VkBo (cxU N)) a a' :=
+  fun D _ hd => ⟨.genB fun _ hq => soundB_at h (HeapU.reflB hq a' D (hn D hd)), hn D hd⟩
+
+variable {σ : Type} {P : Processor σ}
+
+theorem _root_.DarkluaModel.Rules.AtN.HooksLeAt.toU (H : HooksLeAt N P) (F : HooksNoRef P) : HooksU (cxU N) P where
+  expr := fun e s => .single (vkE_at (H.expr e s) (F.expr e s))
+  pref := fun e s => .single (vkE_at (H.pref e s) (F.pref e s))
+  target := fun e s => .single (vkT_at (H.target e s) (F.target e s) (H.targetVar e s))
+  node := fun e s =>
+    ⟨.single (vkE_at (H.node e s).1 (F.node e s)), .single (vkT_at (H.node e s).2 (F.nodeT e s) (H.nodeVar e s))⟩
+  afterNode := fun e s =>
+    ⟨.single (vkE_at (H.afterNode e s).1 (F.afterNode e s)),
+      .single (vkT_at (H.afterNode e s).2 (F.afterNodeT e s) (H.afterNodeVar e s))⟩
+  stmt := fun e s => .single (vkS_at (H.stmt e s) (F.stmt e s))
+  stmtNode := fun e s => .single (vkS_at (H.stmtNode e s) (F.stmtNode e s))
+  afterStmtNode := fun e s => .single (vkS_at (H.afterStmtNode e s) (F.afterStmtNode e s))
+  last := fun e s => .single (vkL_at (H.last e s) (F.last e s))
+  block := fun e s => .single (vkBo_at (H.block e s) (F.block e s))
+  afterBlock := fun e s => .single (vkBo_at (H.afterBlock e s) (F.afterBlock e s))
+  scopeB := fun b s => by rw [H.scopeB b none s]; exact Chain.refl _
+  scopeR := fun b c s => by rw [H.scopeB b (some c) s, H.scopeC b c s]; exact Chain.refl _
+  insert := H.insert
+  insertLocalName := H.insertLocalName
+  insertLocalVal := fun n v s => by rw [H.insertLocalVal n v s]; exact Chain.refl _
+  insertLocalFn := H.insertLocalFn
+
+/-- the `HeapU` form of `AtN.runDefault_upto_at` (hooks of this kind compose with allocation-insensitive `HeapU`
+hooks, `vkBo_repl`, in ONE pass) -/
+theorem runDefault_upto_atU (H : HooksLeAt N P) (F : HooksNoRef P) (b : Block) (s : σ) (ρ : ExtOracle N)
+    (hρ : OracleFlat ρ) (n : Nat) (externs : List String) :
+    runProgram ρ n externs b = .timeout ∨
+      runProgram ρ n externs (Visitor.runDefault P b s).1 = runProgram ρ n externs b :=
+  Visitor.runDefault_u_upto (cx := cxU N) (H.toU F) b s ρ hρ n externs trivial (fun _ => rfl)
+
 end DarkluaModel.Rules.AtNU
